@@ -45,6 +45,7 @@ ASIN = z3.Function("asin", RS, RS)
 ACOS = z3.Function("acos", RS, RS)
 HYP = z3.Function("hypot3", RS, RS, RS, RS)  # hypot(x, y) = hypot3(x, y, 0)
 QUOT = z3.Function("quotient", RS, RS, RS)  # x / c for a symbolic divisor c (kept uninterpreted: queries stay linear)
+FLOOR_QUOT = z3.Function("floor_quotient", RS, RS, z3.IntSort())  # floor(a / m) in numpy.mod
 # integer witnesses of "equal modulo whole turns" in the angle axioms (Skolem functions)
 W_ROTATED = z3.Function("turns.rotated", RS, RS, RS, z3.IntSort())
 W_YAW_ROTATED = z3.Function("turns.yaw_rotated", RS, RS, RS, RS, z3.IntSort())
@@ -521,10 +522,10 @@ def _numpy_module(I):
         # an integer witness k with 0 <= a - m*k < m (no ToInt term: those make mixed LIRA/NRA queries diverge)
         mz = z3.simplify(rz(m))
         if isinstance(a, SV) and z3.is_rational_value(mz) and float(mz.as_fraction()) > 0:
-            k = I.eng.fresh_int("floor")
-            r = I.eng.fresh_real("mod")
-            I.eng.assume(z3.And(r.e == rz(a) - mz * z3.ToReal(k.e), r.e >= 0, r.e < mz))
-            return r
+            az = z3.simplify(rz(a))
+            r = az - mz * z3.ToReal(FLOOR_QUOT(az, mz))  # a function of the argument: the same call yields the same term
+            I.eng.assume(z3.And(r >= 0, r < mz))
+            return sv(r)
         return arith("%", a, m)
 
     def np_array_equal(a, b):
